@@ -50,7 +50,7 @@ func sizeCases(root *vlib.Rand) []sizeCase {
 	if vlib.Thorough() {
 		out = append(out, sizeCase{500000, "over-100KB"}, sizeCase{1<<20 + 1, "over-100KB"})
 	}
-	for i := 0; i < vlib.Scale(40, 1500); i++ {
+	for i := 0; i < vlib.Scale(40, 1000); i++ {
 		r := root.SplitN("prng-size", i)
 		var n int
 		switch r.Intn(3) {
@@ -273,7 +273,7 @@ func (h *H) checkStructure(armor, want, refHead, refTail []byte, rc rec) (*armor
 func (h *H) metamorphic(root *vlib.Rand) {
 	res := h.res
 	sizes := []int{0, 1, 2, 3, 23, 24, 25, 47, 48, 100, 1000, 5000, 23803, 23806, 23809, 30000, 47616, 71430, 100001}
-	nPay := vlib.Scale(36, 1200)
+	nPay := vlib.Scale(36, 500)
 	for pi := 0; pi < nPay; pi++ {
 		if h.abort {
 			return
@@ -292,6 +292,12 @@ func (h *H) metamorphic(root *vlib.Rand) {
 		a, serr := parseArmor(armor)
 		if serr != nil {
 			continue // reported by the structure check of the round-trip section
+		}
+		// the relation is "decoding unchanged": establish the unrewritten decoding first
+		o0 := h.decodeBytes(fmt.Sprintf("meta/%d/orig", pi), base, armor, smodes[0], 4096, r.Split("orig"))
+		if o0.undecided() || o0.err() != nil || !bytes.Equal(o0.data, payload) {
+			res.Obs("meta_skipped_original_does_not_round_trip", 1)
+			continue // a round-trip failure, reported by the round-trip section
 		}
 		nVar := vlib.Scale(7, 14)
 		if n > 20000 {
@@ -436,7 +442,7 @@ func (h *H) boundaryProbe(root *vlib.Rand, refHead, refTail []byte) {
 
 func (h *H) errorClasses(root *vlib.Rand, refHead, refTail []byte) {
 	res := h.res
-	per := vlib.Scale(60, 2500)
+	per := vlib.Scale(60, 2000)
 	for _, class := range errClasses {
 		n := per
 		if class == "oversized-element" {
@@ -496,12 +502,12 @@ func (h *H) hostile(root *vlib.Rand) {
 			res.Obs("hostile_errtext_"+errClass(e), 1)
 		}
 	}
-	for i := 0; i < vlib.Scale(4000, 300000) && !h.abort; i++ {
+	for i := 0; i < vlib.Scale(4000, 120000) && !h.abort; i++ {
 		r := root.SplitN("arb", i)
 		run(fmt.Sprintf("arb/%d", i), "arbitrary", genArbitrary(r.Split("gen")), r)
 		res.Obs("arbitrary_inputs", 1)
 	}
-	for i := 0; i < vlib.Scale(1500, 100000) && !h.abort; i++ {
+	for i := 0; i < vlib.Scale(1500, 40000) && !h.abort; i++ {
 		r := root.SplitN("mut", i)
 		n := r.PickInt([]int{0, 1, 5, 24, 50, 100, 300})
 		if i%50 == 0 {
